@@ -3,7 +3,8 @@
     witness. *)
 From Coq Require Import String Ascii List Bool Arith ZArith.
 From Raven Require Import Base.GoStr Base.GoStrZ Model.SeqSet Model.Expunge Spec.SeqSet Spec.SeqSetFindings
-  Proof.SeqSetStr Proof.SeqSetParse Proof.ExpungeReplay Proof.C09Findings Proof.JunkStore Proof.DeletedWord.
+  Proof.SeqSetStr Proof.SeqSetParse Proof.ExpungeReplay Proof.C09Findings Proof.JunkStore Proof.DeletedWord
+  Model.Session Spec.SessionView Proof.SessionCount.
 Import ListNotations.
 Local Open Scope Z_scope.
 
@@ -118,6 +119,44 @@ Theorem c09_fetch_single_exact : forall (k : Z) (uids : list Z), 1 <= k < 429496
 Proof. exact fetch_single_exact. Qed.
 Print Assumptions c09_fetch_single_exact.
 
+(** (d) across commands: the client of the observing session applies every
+    untagged EXISTS / EXPUNGE strictly (an EXPUNGE must name a message it has).
+    For EVERY trace of SELECT, NOOP, CHECK, EXPUNGE, UID EXPUNGE, STORE(Junk) and
+    other commands, with ARBITRARY changes of the mailbox by deliveries and other
+    sessions in between, outside the three bookkeeping classes its count equals
+    the session's LastMessageCount after every command ... *)
+Theorem c09_session_count_sync : forall (tr : list titem) (rows0 : list msg),
+  let st := run_trace (Cmd CSelect :: tr) rows0 in
+  t_cls st = None -> t_nodup st = true -> t_cnt st = Some (t_last st).
+Proof. exact session_count_sync. Qed.
+Print Assumptions c09_session_count_sync.
+
+(** ... and therefore the server's count at every NOOP boundary: no addition
+    (or removal) stays unannounced *)
+Theorem c09_noop_boundary_count : forall (tr : list titem) (rows0 : list msg),
+  let st := run_trace (Cmd CSelect :: tr ++ [Cmd CNoop]) rows0 in
+  t_cls st = None -> t_nodup st = true -> t_cnt st = Some (count_of (t_rows st)).
+Proof. exact noop_boundary_count. Qed.
+Print Assumptions c09_noop_boundary_count.
+
+Definition session_refuted (cls : sfinding) : Prop := exists tr rows0,
+  let st := run_trace (Cmd CSelect :: tr ++ [Cmd CNoop]) rows0 in
+  t_cls st = Some cls /\ t_nodup st = true /\ t_cnt st <> Some (count_of (t_rows st)).
+
+Definition m_ (i : Z) (f : str) : msg := {| m_id := i; m_uid := i; m_flags := f |}.
+
+Theorem c09_refuted_check_swallows : session_refuted SF_check_swallows.
+Proof. exists [Ext [m_ 1 []; m_ 2 []]; Cmd CCheck], [m_ 1 []]. vm_compute. repeat split; try reflexivity. discriminate. Qed.
+Print Assumptions c09_refuted_check_swallows.
+Theorem c09_refuted_junk_move_count : session_refuted SF_junk_move_count.
+Proof. exists [Cmd (CJunk (S_ "1"))], [m_ 1 []; m_ 2 []]. vm_compute. repeat split; try reflexivity. discriminate. Qed.
+Print Assumptions c09_refuted_junk_move_count.
+Theorem c09_refuted_expunge_unannounced : exists tr rows0,
+  let st := run_trace (Cmd CSelect :: tr) rows0 in
+  t_cls st = Some SF_expunge_unannounced /\ t_nodup st = true /\ t_cnt st = None.
+Proof. exists [Ext [m_ 1 []; m_ 2 (S_ "\Deleted")]; Cmd CExpunge], [m_ 1 []]. vm_compute. repeat split; reflexivity. Qed.
+Print Assumptions c09_refuted_expunge_unannounced.
+
 (** ---- refutations: every remaining finding class contains a violating input ---- *)
 Definition fetch_refuted (cls : finding) : Prop := exists s uids,
   wf s = true /\ classify_fetch s (Z.of_nat (length uids)) = Some cls
@@ -187,6 +226,14 @@ Example c09_regression_deletedx_not_selected :
   /\ sql_deleted (S_ "\Seen \DELETED") = true /\ sql_deleted (S_ "\deleted") = true
   /\ (let mb := [{| m_id := 1; m_uid := 1; m_flags := [] |}; {| m_id := 2; m_uid := 2; m_flags := [] |}; {| m_id := 3; m_uid := 3; m_flags := [] |}] in
       handle_store_junk (S_ "1:2") mb = ([1; 1], [1; 2], [{| m_id := 3; m_uid := 3; m_flags := [] |}])).
+Proof. vm_compute. repeat split; reflexivity. Qed.
+
+(** the seeded change "EXPUNGE resynchronises LastMessageCount from the database"
+    is excluded by the model: an addition pending at the EXPUNGE is announced by the next NOOP *)
+Example c09_pending_exists_survives_expunge :
+  let st := run_trace [Cmd CSelect; Ext [m_ 1 (S_ "\Deleted"); m_ 2 []; m_ 3 []]; Cmd CExpunge; Cmd CNoop] [m_ 1 []; m_ 2 []] in
+  t_cls st = None /\ t_last st = 2 /\ t_cnt st = Some 2 /\ map m_uid (t_rows st) = [2; 3]
+  /\ sess_step CNoop [m_ 2 []; m_ 3 []] 1 = ([NExists 2], [m_ 2 []; m_ 3 []], 2).
 Proof. vm_compute. repeat split; reflexivity. Qed.
 
 (** ---- non-vacuity ---- *)
